@@ -335,7 +335,7 @@ func (r *recorder) recordIncomingRTCP(latestStats internalStats, incoming *incom
 			latestStats = r.recordIncomingRR(latestStats, pkt.Reports, incoming.ts)
 
 		case *rtcp.ExtendedReport:
-			return r.recordIncomingXR(latestStats, pkt, incoming.ts)
+			latestStats = r.recordIncomingXR(latestStats, pkt, incoming.ts)
 		}
 	}
 
